@@ -91,6 +91,21 @@ Theorem C34_settled_detached : forall k st o st', settles o -> lstep k st o = So
 Proof. exact settled_detached. Qed.
 Print Assumptions C34_settled_detached.
 
+(* the wrapped stream has two closing sites (compressedBodyStream.closeOriginalForDiscard, called when
+   the response drops the wrapper, and closeOriginal, run by the compressor goroutine): in either
+   order they close the user's stream once — because of the originalClosed flag: a discard site
+   that does not set it makes the goroutine close a second time *)
+Theorem C34_two_sites_close_once : forall r, si_closer r = true -> si_origClosed r = false ->
+  si_count (closeOriginal (closeOriginalForDiscard r)) = (si_count r + 1)%N /\
+  si_count (closeOriginalForDiscard (closeOriginal r)) = (si_count r + 1)%N /\
+  si_origClosed (closeOriginalForDiscard r) = true /\ si_origClosed (closeOriginal r) = true.
+Proof. exact two_sites_close_once. Qed.
+Print Assumptions C34_two_sites_close_once.
+Theorem C34_flag_is_needed : forall r, si_closer r = true -> si_origClosed r = false ->
+  si_count (closeOriginal (closeOriginalForDiscard_noflag r)) = (si_count r + 2)%N.
+Proof. exact flag_is_needed. Qed.
+Print Assumptions C34_flag_is_needed.
+
 (* the model loops never run out of fuel *)
 Theorem C34_chunked_reader_total : forall max dst b, readBodyChunked max dst b <> BOutOfFuel.
 Proof. exact readBodyChunked_no_fuel. Qed.
@@ -115,6 +130,9 @@ Example C34_ex_panic_then_reset :
      | None => False end
   /\ match lrun MReq ls_init [LSetBodyStream true; LServerDrop; LReset] with
      | Some st => ls_attached st = false /\ ls_counts st = [1%N]
+     | None => False end
+  /\ match lrun MResp ls_init [LSetBodyStream true; LWrap; LWrite FErr; LGoDone 0] with
+     | Some st => ls_counts st = [1%N]
      | None => False end
   /\ match lrun MResp ls_init [LSetBodyStream true; LWrap; LGoDone 0; LWrite FErr] with
      | Some st => ls_counts st = [1%N]
